@@ -39,7 +39,7 @@ impl Engine for HbE2e {
                 let stop = Arc::new(AtomicBool::new(false));
                 let silent = Arc::new(AtomicBool::new(false));
                 let seen = Arc::new(Mutex::new(Seen::default()));
-                let cfg = AutoConfig { ch_max: 0, frame_max: 131072, heartbeat: sh, confirms: false, eof_after_close_ok: true, close_ok_delay_ms: if *mode == "slowclose" { observe } else { 0 }, step_delay_ms: step_delay, open_ok_delay_ms: openok_delay, tail: tail.clone(), tail_with_open_ok: tail_k, silent: silent.clone() };
+                let cfg = AutoConfig { ch_max: 0, frame_max: 131072, heartbeat: sh, confirms: false, eof_after_close_ok: true, close_ok_delay_ms: if *mode == "slowclose" { observe } else { 0 }, step_delay_ms: step_delay, open_ok_delay_ms: openok_delay, tail: tail.clone(), tail_with_open_ok: tail_k, declares_together: 0, silent: silent.clone() };
                 let bt = {
                     let (p, s, st) = (peer.clone(), stop.clone(), seen.clone());
                     std::thread::spawn(move || broker::auto_broker(p, cfg, s, st))
